@@ -9,7 +9,7 @@ From Coq Require Import List String Permutation.
 From TS Require Import Model.Str Model.Outcome Model.Unicode Model.Syntax Model.Attrs Model.Types Model.Parse.
 From TS Require Import Model.Lang.TypeScript Model.Lang.Kotlin Model.Lang.Swift Model.Lang.Scala Model.Lang.Go Model.Lang.Python.
 From TS Require Import Spec.Lexers Spec.C15Spec Spec.C15Render.
-From TS Require Proofs.C15 Proofs.C15_Render Proofs.C15_Kotlin Proofs.C15_Go Proofs.C15_Swift.
+From TS Require Proofs.C15 Proofs.C15_Render Proofs.C15_Kotlin Proofs.C15_Go Proofs.C15_Swift Proofs.C15_Python.
 Import ListNotations.
 
 (* ---- front end: parse_comment_attrs delivers one string per doc attribute (which is what `/// s`,
@@ -221,3 +221,27 @@ Theorem C15_sw_render_partial : forall (uc : unicode) (cfg : sw_config) it st te
      forallb safe_sw (c15_sw_item_docs uc it)).
 Proof. exact Proofs.C15_Swift.C15_sw_render_partial. Qed.
 Print Assumptions C15_sw_render_partial.
+
+(* ---- Python, one item through the model's write_struct / write_enum (helper classes, (str, Enum) class,
+   Types class + variant classes + Union alias) / write_type_alias / write_const, any configuration and
+   printer state.  [c15_py_item_sites it] lists the documented positions in Python's print order with the
+   form each is printed in: (true, d) a docstring (it FOLLOWS the line it documents), (false, d) a `# `
+   line (only the doc of an algebraic enum, printed after the variant classes).  The text is code
+   parts and comment fragments carrying exactly these doc strings in this order; it is contained iff
+   every docstring is safe_py_docstring and every `# ` string safe_py_hash, given neutral code parts
+   (partial as above).  The second theorem: this order is a rearrangement of the IR's doc strings of
+   the item plus the generated helper comments. ---- *)
+Theorem C15_py_render_partial : forall (uc : unicode) (cfg : py_config) it st text st',
+  py_write_item uc cfg it st = Ok (text, st') ->
+  exists parts,
+    text = text_of (c15_file_pieces C15py parts) /\
+    docs_of (c15_file_pieces C15py parts) = map snd (c15_py_item_sites it) /\
+    (Forall (c15_code_neutral C15py) parts ->
+     c15_contained C15py LCode (mark (c15_file_pieces C15py parts)) =
+     forallb (c15_site_ok C15py) (c15_py_item_sites it)).
+Proof. exact Proofs.C15_Python.C15_py_render_partial. Qed.
+Print Assumptions C15_py_render_partial.
+Theorem C15_py_sites_perm : forall it,
+  Permutation (map snd (c15_py_item_sites it)) (c15_item_generated it ++ c15_item_docs it).
+Proof. exact Proofs.C15_Python.c15_py_sites_perm. Qed.
+Print Assumptions C15_py_sites_perm.
